@@ -34,10 +34,19 @@ def run(eng, rep, tier):
     for f_, s_, label in ((fi, summ, "CFG"), (prog.method("PDA", "intersection"), None, "PDA")):
         if s_ is None:
             s_ = interp.run_entry(f_, PDA)
+        def _is_other(av):
+            """the automaton operand itself, or a fresh automaton made from it (a determinised / copied `other`)"""
+            if av is None:
+                return False
+            if OTHER in av.alias:
+                return True
+            return bool(av.alias) and all(l[0].startswith("fresh:") for l in av.alias) and \
+                any(isinstance(d, tuple) and d and d[0] == OTHER[0] for d in deps_of(av)) and \
+                av.types is not None and bool(av.types) and av.types <= {DFA, ENFA, NFA}
         succ = []
         for ev, chain in s_.walk():
-            if ev.kind == "call" and ev.callee.endswith("FiniteAutomaton.__call__") and ev.recv is not None and \
-                    OTHER in ev.recv.alias and ev.result is not None:
+            if ev.kind == "call" and ev.callee.endswith("FiniteAutomaton.__call__") and _is_other(ev.recv) \
+                    and ev.result is not None:
                 succ.append(ev)
         idx = []
         for ev, chain in s_.walk():
@@ -68,8 +77,10 @@ def run(eng, rep, tier):
                  ev.recv is not None and START(OTHER) in deps_of(ev.recv)]
         picks += [ev for ev, _ in s_.walk() if ev.kind == "bcall" and ev.callee == "next" and ev.args and
                   START(OTHER) in (deps_of(ev.args[0]) | deps_of(ev.args[0].elem))]
-        src = [ev for ev, _ in s_.walk() if ev.kind == "call" and ev.callee.endswith(".start_states") and
-               ev.recv is not None and OTHER in ev.recv.alias]
+        src = [ev for ev, _ in s_.walk() if ev.kind == "call" and ev.callee.endswith(".start_states") and _is_other(ev.recv)]
+        # a pick made inside a method of the deterministic class on its own start set (DFA.to_deterministic building a
+        # fresh copy of itself) is a pick on a deterministic automaton by class invariant
+        picks = [ev for ev in picks if not (ev.recv_cls == DFA and ev.func.cls is not None and ev.func.cls.qname == DFA)]
         okd = bool(src) and (not picks or all(has_qual(ev.recv, "DET") for ev in src))
         bad = next((ev for ev in src if not has_qual(ev.recv, "DET")), None)
         ob.decide("R3c", "C11.1", f_, "single-start-pick:" + label, okd,
